@@ -41,6 +41,7 @@ def run(chk):
     chk.audit(PROPS)
     cases = build_cases(chk)
     results = chk.run_cases('scen_proc', cases, sched=False, per_case_timeout=150.0)
+    results = scen_proc.recheck_hangs(chk, 'scen_proc', results, scen_proc.case_class)
     chk.account(scen_proc, results, 'E4-processes')
     chk.collect_monitors(results, {'C12'}, keyfn)
     chk.validate('procoutcome', scen_proc, results)
